@@ -67,6 +67,8 @@ def natural_status(s: dict[str, Any], spec: dict[str, Any] | None = None) -> str
 def max_exec(t: dict[str, Any]) -> int | None:
     """Executions one activation of a task may take according to its script (None = unbounded by script)."""
     b = t.get("b", "ok")
+    if b == "disabled":
+        return 0
     if b in ("ok", "fail", "fail_continue"):
         return 1
     if b in ("poll", "transient"):
